@@ -69,6 +69,9 @@ int mc_deadline_hit(void)
 
 /* ------------------------------------------------------------------ context, violations */
 static int  ctx[MC_CTX_MAX + 8]; static int ctx_n;
+static int prev_ctx[MC_CTX_MAX + 8], prev_n;      /* the case before the current one: an enumeration replay runs it first, so that state a case leaves behind
+                                                     * outside the snapshot (a writable static in the code under test) is reproduced */
+
 static const char *g_prop, *g_name;
 static const char *(*g_evname)(int);
 static int  g_is_bfs;
@@ -127,6 +130,7 @@ static void write_replay(const char *path, const char *sig, const char *diag)
     fprintf(f, ",\n \"build\": "); json_str(f, o_tag);
     fprintf(f, ",\n \"ctx\": [");
     for (int i = 0; i < ctx_n; i++) fprintf(f, "%s%d", i ? "," : "", ctx[i]);
+    if (!g_is_bfs && prev_n > 1) { fprintf(f, "],\n \"prev\": ["); for (int i = 0; i < prev_n; i++) fprintf(f, "%s%d", i ? "," : "", prev_ctx[i]); }
     fprintf(f, "],\n \"opts\": {");
     for (int i = 0; i < n_opts; i++) fprintf(f, "%s\"%s\": %d", i ? "," : "", o_opts[i].name, o_opts[i].val);
     fprintf(f, "},\n");
@@ -408,6 +412,7 @@ static long en_cases, en_nontrivial; static char en_samples[4][400]; static int 
 
 void mc_case_v(const int *v, int n)
 {
+    if (ctx_n > 1 && !g_is_bfs) { memcpy(prev_ctx, ctx, sizeof(int) * (size_t)ctx_n); prev_n = ctx_n; }
     /* finish the bookkeeping of a previous failed case is done in mc_case_end */
     ctx[0] = o_cfg; ctx_n = 1;
     for (int i = 0; i < n && ctx_n < MC_CTX_MAX; i++) ctx[ctx_n++] = v[i];
@@ -451,6 +456,12 @@ int mc_enum_main(int argc, char **argv, const mc_enum *e)
         printf("replay %s/%s cfg=%d case:", e->property, e->name, o_cfg);
         for (int i = 1; i < n; i++) printf(" %d", v[i]);
         printf("\n");
+        {   /* the case that ran before the recorded one, if the file names it */
+            static char buf[1 << 16]; FILE *f = fopen(o_replay, "r"); size_t m = f ? fread(buf, 1, sizeof buf - 1, f) : 0; if (f) fclose(f); buf[m] = 0;
+            char *p = strstr(buf, "\"prev\""); int pv[MC_CTX_MAX + 8], k = 0;
+            if (p && (p = strchr(p, '[')) != 0) { p++; while (*p && *p != ']' && k < MC_CTX_MAX) { pv[k++] = (int)strtol(p, &p, 10); while (*p == ',' || *p == ' ') p++; } }
+            if (k > 1 && pv[0] == o_cfg) { printf("(previous case first)\n"); e->run_case(pv, k); }
+        }
         e->run_case(v, n);
         return 0;
     }
